@@ -1,4 +1,5 @@
 import RV.Json
+import RV.Drv.Fault
 import RV.Drv.Arith
 import RV.Drv.Traffic
 import RV.Model.RolloutSM
@@ -167,26 +168,7 @@ def handle : Handler := fun op inp impl => do
                        ("net", netToJson r.w.net), ("mem", memToJson r.w.mem)]
       return { model := mkObj [("requeue", boolJ r.requeue), ("err", boolJ r.err), ("roGone", boolJ r.roGone), ("w", wj)],
                holds := holds, tags := tags }
-  | "fault" =>
-    -- C06 / C09 on one real reconcile with the k-th API call (read or write) failing
-    match jopt impl "panic" with
-    | some _ => return { model := .null, holds := [("C06.fault_no_panic", false), ("C09.fault_no_panic", false)], tags := ["fault:panic"] }
-    | none =>
-      let hitS ← fStr impl "hit"
-      let hit := hitS != ""
-      let err ← fBool impl "err"
-      let ws ← (← fArrD impl "writes").mapM jstr
-      let bws ← (← fArrD impl "baseWrites").mapM jstr
-      let kind := (hitS.splitOn " ").headD ""
-      let kindObj := String.intercalate " " ((hitS.splitOn " ").take 2)
-      return { model := .null,
-               -- the same verdicts under every property whose safety clause a swallowed failure would break (C06: "all safety
-               -- properties hold in between")
-               holds := [("C06.fault_no_panic", true), ("C09.fault_no_panic", true)] ++
-                        (["C01", "C02", "C03", "C04", "C05", "C06", "C07", "C10", "C18"].flatMap fun p =>
-                          [(p ++ ".fault_reported", RV.Oracle.RolloutSM.faultReported hit err),
-                           (p ++ ".fault_writes_within", RV.Oracle.RolloutSM.faultWritesWithin hit ws bws)]),
-               tags := ["fault", if hit then s!"fault:{kindObj}" else "fault:not-reached", s!"faultverb:{kind}"] ++ (if hit then [] else ["trivial"]) }
+  | "fault" => RV.Drv.Fault.handleFault ["C01", "C02", "C03", "C04", "C05", "C06", "C07", "C09", "C10", "C18"] impl
   | _ => .error s!"rolloutsm: unknown op {op}"
 
 end RV.Drv.RolloutSM
